@@ -37,6 +37,9 @@ pub fn dt_lattice(rng: &mut Rng, extra: usize, leap: bool) -> Vec<NaiveDateTime>
         let n = 146_097 * k + base + d;
         if n >= MIN_DAY && n <= MAX_DAY { v.push(mk_ndt(n, 45_296, 0)); }
     } } }
+    // every binary scale of the range (thinned below the thorough tier)
+    let sd = scale_days();
+    for (i, n) in sd.iter().enumerate() { if extra >= 4000 || i % 5 == 0 { v.push(mk_ndt(*n, 45_296, if leap && i % 4 == 0 { 1_500_000_000 } else { 7 })); } }
     // the ends of the i64-nanosecond window
     v.push(mk_ndt(825_914, 85_636, 854_775_807)); v.push(mk_ndt(825_914, 85_636, 854_775_808));
     v.push(mk_ndt(612_411, 763, 145_224_192)); v.push(mk_ndt(612_411, 763, 145_224_191));
